@@ -15,6 +15,11 @@ CHECKS = {
         note="W<=4 quick / <=6 thorough; non-unit steps and bounds beyond [-W,W] judged raise-or-correct as the statement allows",
         tech="exhaustive enumeration of a bounded input box executed on the implementation, oracle = Python list semantics",
         ref="DESIGN.md 2/C03"),
+    "C11": dict(
+        text="for every package produced by the design families, the primitive parameter space (every primitive x field x typed value), external modules with every SpiceType / port direction / parameter mix and module literals, and the example scripts: from_proto, re-export of the imported top-level modules, and protobuf equality with the original",
+        note="quick tier takes a fixed arithmetic sub-sequence of the two largest families (reported as a cap)",
+        tech="differential check (export / import / export) over a bounded-exhaustive corpus of packages produced by the implementation",
+        ref="DESIGN.md 2/C11"),
     "C13": dict(
         text="every primitive x parameter field x value of a typed alphabet (prefix x mantissa grid, ints, floats, Decimals, strings, literals, enums, None), plus external modules and to_scalar, exported on the real library; the ParamValue is parsed with unlimited precision and compared with the exact input",
         note="floats may appear as shortest-repr decimal or exact binary value; plain ints beyond 64 bits and ambiguous numeric spellings are outside the alphabet",
@@ -50,6 +55,11 @@ CHECKS = {
         note="parameter-class equality decides which calls must share a Module; two same-named Modules as parameter values and unhashable dict-parameter calls are excluded as grey",
         tech="exhaustive enumeration of value pairs and of call-order permutations (operation histories) executed on the implementation, differential oracle across histories and processes",
         ref="DESIGN.md 2/C09"),
+    "C18": dict(
+        text="breadth-first search over all setattr / add(named) / add(name=) operations with names {a,b} and every attribute kind on a real Module (states merged on the reference model's state, to a fixpoint) plus all un-merged histories up to length 2 (3 thorough); after every step get(), attribute access, the six views, the namespace, port visibility and parent pointers are compared with a dict model, rejected operations are tried in every state and every state is exported and compared with the reference semantics; the same for Bundles to length 3 (4); class-style vs procedural definitions over all sequences up to length 2 (3)",
+        note="storing one object under two different names is outside the alphabet (unspecified behaviour)",
+        tech="explicit-state breadth-first search over operation histories of the real objects with canonical state merging, invariant checked in every state against a reference model",
+        ref="DESIGN.md 2/C18"),
 }
 
 NOT_YET = {}
